@@ -16,7 +16,7 @@ import (
 // runC11: state is per run and accessed under mutual exclusion.
 func runC11(t *kernel.Tape, opt core.Opts) *core.Outcome {
 	o := &core.Outcome{}
-	g := GenOpts{Modes: []int{ModePregel, ModeDAG, ModeWorkflow}, MaxNodes: 6, Depth: 2, Cycles: true, State: 50, TopState: true,
+	g := GenOpts{Modes: []int{ModePregel, ModeDAG, ModeWorkflow}, MaxNodes: 6, Depth: 2, Cycles: true, State: 50, TopState: true, SeeState: true,
 		Streams: t.PlanBool(50), Handlers: true, Yields: 2, Parallelism: t.PlanBool(60)}
 	p := Generate(t, g)
 	maybeAnyTypes(t, p)
@@ -204,6 +204,12 @@ func runC10(t *kernel.Tape, opt core.Opts) *core.Outcome {
 	if len(ls) >= 2 && t.PlanBool(35) {
 		m := mdesig{id: "m:0"}
 		k := 2 + t.Plan(2)
+		// (the nodes that also have a handler of their own come first: two options then designate
+		// the same node)
+		for _, d := range ds {
+			m.names = append(m.names, d.name)
+			m.paths = append(m.paths, d.path)
+		}
 		for i := 0; i < k; i++ {
 			l := ls[t.Plan(len(ls))]
 			if !inSet(m.names, "n:"+l.path) {
@@ -236,17 +242,25 @@ func runC10(t *kernel.Tape, opt core.Opts) *core.Outcome {
 		defer callbacks.InitCallbackHandlers(nil)
 		handlerIDs = append(handlerIDs, "G")
 	}
+	// handler slices are built the way applications build them: with spare capacity (the
+	// framework must not append into a caller's slice)
+	withCB := func(h callbacks.Handler) compose.Option {
+		hs := make([]callbacks.Handler, 1, 4)
+		hs[0] = h
+		return compose.WithCallbacks(hs...)
+	}
+	var optsCall, optsD, optsM []compose.Option
 	for i := 0; i < nCall; i++ {
 		id := fmt.Sprintf("c%d", i)
-		call.Opts = append(call.Opts, compose.WithCallbacks(env.recordingHandler(id, t.Plan(3))))
+		optsCall = append(optsCall, withCB(env.recordingHandler(id, t.Plan(3))))
 		handlerIDs = append(handlerIDs, id)
 	}
 	for _, d := range ds {
 		h := env.recordingHandler(d.id, t.Plan(3))
 		if len(d.path) == 1 {
-			call.Opts = append(call.Opts, compose.WithCallbacks(h).DesignateNode(d.path[0]))
+			optsD = append(optsD, withCB(h).DesignateNode(d.path[0]))
 		} else {
-			call.Opts = append(call.Opts, compose.WithCallbacks(h).DesignateNodeWithPath(compose.NewNodePath(d.path...)))
+			optsD = append(optsD, withCB(h).DesignateNodeWithPath(compose.NewNodePath(d.path...)))
 		}
 	}
 	for _, m := range ms {
@@ -255,7 +269,16 @@ func runC10(t *kernel.Tape, opt core.Opts) *core.Outcome {
 		for _, pth := range m.paths {
 			nps = append(nps, compose.NewNodePath(pth...))
 		}
-		call.Opts = append(call.Opts, compose.WithCallbacks(h).DesignateNodeWithPath(nps...))
+		optsM = append(optsM, withCB(h).DesignateNodeWithPath(nps...))
+	}
+	// the order in which the options are passed is drawn
+	groups := [][]compose.Option{optsCall, optsD, optsM}
+	for i := 2; i > 0; i-- {
+		j := t.Plan(i + 1)
+		groups[i], groups[j] = groups[j], groups[i]
+	}
+	for _, g := range groups {
+		call.Opts = append(call.Opts, g...)
 	}
 	var res *CallResult
 	s.Go("caller0", func() { res = doCall(env, r, call) })
@@ -366,13 +389,13 @@ func runC10(t *kernel.Tape, opt core.Opts) *core.Outcome {
 func init() {
 	core.Register(&core.Profile{
 		RaceQuick: 200, RaceThorough: 3000, ID: "C11", Engine: "graphsim", Quick: 2000, Thorough: 50000, ThoroughSeeds: 3, Run: runC11,
-		Rule: "each run draws a stateful plan (all modes; value and stream pre/post handlers; node bodies calling ProcessState, also from stateless nested graphs; stateful nested graphs), every state access does read-yield-write inside the framework's lock and passes a mutual-exclusion monitor; two calls on the same compiled object; oracle: monitor never sees two tasks inside, final counter = number of invocations, one fresh state per run and per stateful nested execution, pre < node < post, values equal the reference model",
+		Rule: "each run draws a stateful plan (all modes; value and stream pre/post handlers; node bodies calling ProcessState, also from stateless nested graphs; stateful nested graphs), every state access does read-yield-write inside the framework's lock and passes a mutual-exclusion monitor; two calls on the same compiled object; oracle: monitor never sees two tasks inside, final counter = number of invocations, one fresh state per run and per stateful nested execution, pre < node < post, values equal the reference model; Pregel plans: pre-handlers copy into the node input how many body/post-handler updates the state has seen (must equal the count at the start of the superstep)",
 		Real: graphReal, Stub: graphStub,
 		Faults: []string{"handlers and ProcessState bodies yielding inside the lock", "parallel nodes", "schedule perturbation"},
 	})
 	core.Register(&core.Profile{
 		RaceQuick: 200, RaceThorough: 3000, ID: "C10", Engine: "graphsim", Quick: 2000, Thorough: 50000, ThoroughSeeds: 3, Run: runC10,
-		Rule: "each run draws a plan (all modes, nested graphs, parallel nodes), a handler supply (global handler, 0-3 graph-level handlers each in its own call option, 0-3 handlers designated to nodes or node paths), per handler what it does with stream payloads (read all, read one chunk, close at once), optionally a failing node; oracle: per handler and execution unit exactly one start-type and one end-type callback, start first, the unit's RunInfo, designated handlers only for their node, start payload = an input of that node, graph data equal to the model",
+		Rule: "each run draws a plan (all modes, nested graphs, parallel nodes), a handler supply (global handler, 0-3 graph-level handlers each in its own call option, 0-3 handlers designated to nodes or node paths), per handler what it does with stream payloads (read all, read one chunk, close at once), optionally a failing node; oracle: per handler and execution unit exactly one start-type and one end-type callback, start first, the unit's RunInfo, designated handlers only for their node, start payload = an input of that node, graph data equal to the model; handler options are built from caller slices with spare capacity and passed in a drawn order; one option may designate several targets (nested paths and top-level keys mixed) including nodes that have a handler of their own",
 		Real: graphReal, Stub: append([]string{"callback handlers (recording stubs; stream payloads read by handler tasks)"}, graphStub...),
 		Faults: []string{"handlers closing or partially reading their stream copies", "parallel nodes", "node error/panic"},
 	})
